@@ -39,7 +39,12 @@ class InvertedBooleanCheckTransformer(LibcstResultTransformer):
             # Handle 'not status is False' -> 'status'
             if comparison.comparisons[0].comparator.value == "False":
                 self.report_change(original_node)
-                return comparison.left
+                # the operand takes the place of the whole `not` expression:
+                # it needs that expression's parentheses
+                return comparison.left.with_changes(
+                    lpar=[*updated_node.lpar, *comparison.lpar, *comparison.left.lpar],
+                    rpar=[*comparison.left.rpar, *comparison.rpar, *updated_node.rpar],
+                )
 
         inverted_comparisons = self._invert_comparisons(comparison)
         if inverted_comparisons is None:
